@@ -16,6 +16,10 @@ def main(argv: list[str]) -> int:
     with open(inp) as f:
         payload = json.load(f)
     sys.setrecursionlimit(3000)
+    if (payload.get("unit") or {}).get("dsched") or payload.get("dsched"):
+        # units that run under the deterministic thread scheduler: instrument threading BEFORE anything imports reactivex
+        from . import dsched
+        dsched.install(())
     mod = importlib.import_module("vf.props." + pid.lower())
     res = UnitResult()
     try:
